@@ -214,6 +214,16 @@ def attach_scc_subdiagram(
         # This `scc_sd` has a single minimal SCC, which thus corresponds to the `attach_at` point.
         return [attach_at]
 
+    # If we are checking for MAAs, do it before `sd` is modified: the candidate search
+    # can fail (resource limits, solver errors), and such failure must not interrupt
+    # the copying below in a state where nodes are marked as expanded without
+    # having their successors.
+    nodes_without_maa: set[int] = set()
+    if check_maa:
+        for scc_node_id in scc_sd.node_ids():
+            if len(scc_sd.node_attractor_candidates(scc_node_id, compute=True)) == 0:
+                nodes_without_maa.add(scc_node_id)
+
     # Maps node IDs from the `scc_sd` to the extended and copied nodes in `sd`.
     node_id_map: dict[int, int] = {scc_sd.root(): attach_at}
 
@@ -240,10 +250,9 @@ def attach_scc_subdiagram(
                 sd._reset_attractor_data(main_node_id)  # type: ignore
             sd.node_data(main_node_id)["expanded"] = True
 
-        if check_maa:
-            if len(scc_sd.node_attractor_candidates(scc_node_id, compute=True)) == 0:
-                sd.node_data(main_node_id)["attractor_seeds"] = []
-                sd.node_data(main_node_id)["attractor_sets"] = []
+        if scc_node_id in nodes_without_maa:
+            sd.node_data(main_node_id)["attractor_seeds"] = []
+            sd.node_data(main_node_id)["attractor_sets"] = []
 
     assert len(node_id_map) == len(scc_sd)
 
@@ -266,9 +275,8 @@ def attach_scc_subdiagram(
         sd._reset_attractor_data(attach_at)  # type: ignore
     sd.node_data(attach_at)["expanded"] = True
     # Finally, if we are checking for MAAs, we can do that for the root too:
-    if check_maa:
-        if len(scc_sd.node_attractor_candidates(scc_sd.root(), compute=True)) == 0:
-            sd.node_data(attach_at)["attractor_seeds"] = []
-            sd.node_data(attach_at)["attractor_sets"] = []
+    if scc_sd.root() in nodes_without_maa:
+        sd.node_data(attach_at)["attractor_seeds"] = []
+        sd.node_data(attach_at)["attractor_sets"] = []
 
     return min_traps
